@@ -160,6 +160,8 @@ func mbcMain(c *Ctx) {
 		mbcGen(c)
 	case "rerun":
 		mbcRerun(c)
+	case "legc":
+		mbcLegC(c)
 	default:
 		die("mbc: unknown mode %s", c.Mode)
 	}
